@@ -269,11 +269,13 @@ func buildReport(p *Prog, rr *RunResult, obls []*Obligation, prop, tier string, 
 			continue
 		}
 		// failed obligation
-		if k := kf.match(prop, o); k != nil {
+		if k := kf.match(p, repo, prop, o); k != nil {
 			rep.Known = append(rep.Known, k.What)
 			cov.KnownFinding = append(cov.KnownFinding, o.Name+": "+k.What)
 			rep.Lines = append(rep.Lines, fmt.Sprintf("KNOWN-FINDING: property=%s %s (%s)", prop, k.What, o.Name))
-			cov.Discharged++ // discharged outside the recorded region (see known_findings.json); counted separately below
+			// not counted as an obligation of the proof claim: listed separately
+			cov.Obligations--
+			cov.ByKind[o.Kind]--
 			cov.Vacuity["known_finding_obligations"]++
 			continue
 		}
